@@ -55,6 +55,9 @@ type WorkerOut struct {
 }
 
 func WorkerMain(t *testing.T) {
+	// one simulated run is single-threaded by construction: the value is
+	// pinned here, not left to the environment
+	runtime.GOMAXPROCS(1)
 	debug.SetGCPercent(-1)
 	if *flagShrink != "" {
 		shrinkMain(t, *flagShrink, *flagShrinkO, *flagShrinkB)
